@@ -1173,6 +1173,7 @@ func main() {
 			for _, f := range []struct{ lean, recv, fn string }{
 				{"sleep_nextWaker", "Sleeper", "nextWaker"}, {"sleep_Fetch", "Sleeper", "Fetch"},
 				{"sleep_enqueue", "Sleeper", "enqueueAssertedWaker"}, {"sleep_Assert", "Waker", "Assert"}, {"sleep_Clear", "Waker", "Clear"},
+				{"sleep_Done", "Sleeper", "Done"}, {"sleep_AddWaker", "Sleeper", "AddWaker"},
 			} {
 				sh, err := sp.atomShape(f.recv, f.fn)
 				must(err)
